@@ -316,6 +316,24 @@ def judge_geff(case, wd, rng):
         attrs = {k: v for k, v in r.items() if k not in (names["id"], names["parent_id"])}
         g.add_node(int(r[names["id"]]), **attrs)
     g.add_edges_from(case["int_edges"])
+    # two measurement columns with gaps (not every node was measured), mapped as one
+    # two-valued property AND the first of them once more on its own
+    gaps = {}
+    if not case["malform"] and len(g) >= 3 and rng.random() < 0.3:
+        for n_ in g.nodes:
+            a_ = round(rng.uniform(1, 9), 2) if rng.random() < 0.7 else None
+            b_ = round(rng.uniform(1, 9), 2) if rng.random() < 0.7 else None
+            if a_ is not None:
+                g.nodes[n_]["m_a"] = a_
+            if b_ is not None:
+                g.nodes[n_]["m_b"] = b_
+            gaps[n_] = (a_, b_)
+        if not any(v[0] is not None for v in gaps.values()) or \
+                not any(v[1] is not None for v in gaps.values()):
+            for n_ in g.nodes:
+                g.nodes[n_].pop("m_a", None)
+                g.nodes[n_].pop("m_b", None)
+            gaps = {}
     # edge properties, one of them imported under a key that is spelled like a node column
     # of the position mapping (a valid edge mapping: node and edge keys live apart)
     ekeys = {}
@@ -332,6 +350,9 @@ def judge_geff(case, wd, rng):
         geff.write(g, d, axis_names=[names["time"]] + case["posnames"],
                    axis_types=["time"] + ["space"] * case["nd"])
     nm = {k: v for k, v in case["nm"].items() if k not in ("id", "parent_id")}
+    if gaps:
+        nm["m_pair"] = ["m_a", "m_b"]
+        nm["m_a_alone"] = "m_a"
     mal = case["malform"]
     if mal:
         z = zarr.open(str(d), mode="r+")
@@ -368,6 +389,15 @@ def judge_geff(case, wd, rng):
         return [("malformed-accepted", f"GEFF {mal} store was imported",
                  f"C12/geff/malformed/{mal}/accepted")]
     probs = compare(case, tracks, "geff")
+    if not probs and gaps:
+        for n_, (a_, b_) in gaps.items():
+            got = tracks.get_node_attr(n_, "m_a_alone")
+            got = None if got is None or (isinstance(got, float) and got != got) else float(got)
+            if got != a_:
+                probs.append(("custom", f"node {n_}: m_a_alone (column m_a, also the first "
+                              f"component of the two-valued m_pair) is {got!r}, source {a_!r}",
+                              "C12/geff/custom/column-mapped-twice-with-gaps"))
+                break
     if not probs and ekeys:
         for (u_, v_) in case["int_edges"]:
             for key_, src_ in ekeys.items():
